@@ -88,6 +88,12 @@ type GhostVar struct {
 	// It is forgotten at every call into module or unknown code and is exempt from
 	// frame checks, so it can only be used right after the call that sets it.
 	Probe bool
+	// Trace ("ghost trace"): a record of calls of a library function that is used all over the
+	// module (json.Marshal): like a ghost var it changes only where a contract names it, but a
+	// function that reaches such a call need not list it in its frame. A caller therefore
+	// learns nothing about it across calls whose contract does not name it (they are taken to
+	// leave it alone - sound only for reasoning inside the function that makes the call itself).
+	Trace bool
 }
 
 type SpecFunc struct {
@@ -357,8 +363,8 @@ func (cs *ContractSet) LoadFile(path, pkg string, trusted bool) {
 			cs.ByName[k] = cur
 		case "ghost":
 			f := strings.Fields(rest)
-			if len(f) >= 3 && (f[0] == "var" || f[0] == "probe") {
-				cs.Ghosts[f[1]] = &GhostVar{Name: f[1], Type: strings.Join(f[2:], " "), Pkg: pkg, Probe: f[0] == "probe"}
+			if len(f) >= 3 && (f[0] == "var" || f[0] == "probe" || f[0] == "trace") {
+				cs.Ghosts[f[1]] = &GhostVar{Name: f[1], Type: strings.Join(f[2:], " "), Pkg: pkg, Probe: f[0] == "probe", Trace: f[0] == "trace"}
 			} else {
 				errf(l.line, "bad ghost decl")
 			}
